@@ -37,6 +37,9 @@ int Gen::addDomain(bool rel, int maxK, long maxStates)
     for (int i = 0; i < K; i++) {
         int r = int(R.below(100));
         int s = r < 78 ? R.range(2, 4) : r < 94 ? R.range(5, 9) : R.range(17, 20);
+        // a variable with a single value is legal (bound 1); identity-reduced relation forests over such a
+        // domain are a recorded known finding and are not created by the interpreter (label excluded.*)
+        if (R.chance(getenv("MVH_SIZE1") ? 30 : 3)) s = 1;
         sz.push_back(s);
     }
     auto prod = [&]() { long p = 1; for (int s : sz) p *= s; return p; };
